@@ -4,6 +4,7 @@
 //!   ohharness exec                                   execute the operation lines read on stdin
 mod ast;
 mod c19;
+mod c20;
 mod ev;
 mod gen_expr;
 mod util;
@@ -23,6 +24,8 @@ fn exec_line(line: &str) -> String {
         c19::exec(op, args)
     } else if op.starts_with("ev.") {
         ev::exec(op, args)
+    } else if op.starts_with("usv.") {
+        c20::exec(op, args)
     } else {
         None
     };
@@ -52,6 +55,7 @@ fn main() {
             match suite {
                 "c19" => c19::gen(tier, &mut rng, &mut emit),
                 "ev" => ev::gen(tier, &mut rng, &mut emit),
+                "c20" => c20::gen(tier, &mut rng, &mut emit),
                 _ => {
                     eprintln!("unknown suite {suite}");
                     std::process::exit(2);
